@@ -283,6 +283,16 @@ impl InjectorPP {
     }
 }
 
+impl Drop for InjectorPP {
+    fn drop(&mut self) {
+        // Restore in reverse installation order: when a function was faked more than once,
+        // the bytes saved by the first installation (the real original) must be written last.
+        while let Some(guard) = self.guards.pop() {
+            drop(guard);
+        }
+    }
+}
+
 impl Default for InjectorPP {
     fn default() -> Self {
         Self::new()
